@@ -15,6 +15,7 @@ mod c03;
 mod c04;
 mod c06;
 mod c07;
+mod c08;
 mod c09;
 mod c10;
 mod common;
@@ -90,6 +91,7 @@ fn main() {
         "C02" => c02::run(&mut ctx),
         "C03" => c03::run(&mut ctx),
         "C07" => c07::run(&mut ctx),
+        "C08" => c08::run(&mut ctx),
         "C09" => c09::run(&mut ctx),
         "C06" => c06::run(&mut ctx),
         "C04" => c04::run(&mut ctx),
